@@ -11,8 +11,9 @@ PID = "C20"
 CLAIM = dict(
     text="Coq theorems over (a) decision functions regenerated on every run from the source of DebuggedApplication.__call__, "
          "execute_command, display_console, pin_auth, log_pin_request, check_pin_trust and _fail_pin_auth (T2 translator with an "
-         "atom table) and (b) a hand-written executable model of host_is_trusted / get_host / the cookie and argument parsing "
-         "that feeds them: the evaluation gate and the host gate of every debugger endpoint (finite sweep over all abstract "
+         "atom table), (b) host functions regenerated from sansio.utils._strip_port / host_is_trusted / get_host, "
+         "sansio.request.Request.host and wsgi.get_host over hand-written str primitives and proved equal to a reference reading, "
+         "and (c) a hand-written model of the cookie and argument parsing that feeds them: the evaluation gate and the host gate of every debugger endpoint (finite sweep over all abstract "
          "requests, re-proved against the regenerated functions), permanence of the PIN lock-out for every history of requests "
          "with the counter modelled as the unsigned byte it is, and soundness of host trust (port-stripped, IDNA-encoded host equals "
          "a listed name or is a true subdomain of a dot-prefixed entry; no failure other than SecurityError). The model is compared "
@@ -254,8 +255,11 @@ class GuardedFn(Fn):
     """method that starts with the host guard and then does one thing."""
     atoms = dict(HOST_ATOMS)
 
+    seen_guard = False
+
     def ret(self, s, env):
         if s.value is not None and norm(s.value) == SECURITY_RETURN:
+            self.seen_guard = True
             return "OSecurityError"
         return self.ret_other(s, env)
 
@@ -294,6 +298,8 @@ class ConsoleFn(GuardedFn):
         if stmts and isinstance(stmts[0], ast.If) and norm(stmts[0].test) == "0 not in self.frames":
             if norm(stmts[0]) != self.FRAME0:
                 self.bad("console frame creation changed", stmts[0])
+            if not self.seen_guard:
+                self.bad("the console frame is created before the host guard", stmts[0])
             env["frame0"] = True
             return super().run(stmts[1:], env)
         return super().run(stmts, env)
@@ -453,6 +459,445 @@ class PinTrustFn(Fn):
         self.bad("statement", s)
 
 
+# ---------------------------------------------------------------------- T2 for the host functions
+
+CATCHES_UNICODE_ERROR = ("UnicodeError", "ValueError", "Exception", "BaseException")
+
+
+class HostTr:
+    """Translates sansio.utils._strip_port / host_is_trusted / get_host (str programs: if / return / assignment /
+    one for loop / try around an IDNA step / raise) into Gallina over the primitives of C20/Str.v.
+    Types: str, int (Z), bool, optstr, optlist, optpair (server), pair, list.  Everything else: Unsupported."""
+
+    def __init__(self, fname: str, params: dict, rettype: str):
+        self.fname = fname
+        self.params = params          # python name -> type
+        self.rettype = rettype        # "str" | "res bool" | "res str"
+        self.aux: list[str] = []      # auxiliary definitions (the loop) emitted before the function
+        self.uses_idna = False
+
+    def bad(self, what, node=None):
+        where = f" at line {getattr(node, 'lineno', '?')}: {ast.unparse(node)[:120]}" if node is not None else ""
+        raise px.Unsupported(f"{self.fname}: {what}{where}")
+
+    @staticmethod
+    def v(name: str) -> str:
+        return "v_" + name
+
+    @staticmethod
+    def lit(s: str) -> str:
+        return "([] : str)" if s == "" else "[" + "; ".join(str(ord(c)) for c in s) + "]"
+
+    def char(self, e) -> str:
+        if isinstance(e, ast.Constant) and isinstance(e.value, str) and len(e.value) == 1:
+            return str(ord(e.value))
+        self.bad("a one-character literal is expected here", e)
+
+    def typeof(self, e, env) -> str:
+        if isinstance(e, ast.Name):
+            if e.id in env["ty"]:
+                return env["ty"][e.id]
+            self.bad("unknown name", e)
+        if isinstance(e, ast.Constant):
+            if isinstance(e.value, bool):
+                return "bool"
+            if isinstance(e.value, int):
+                return "int"
+            if isinstance(e.value, str):
+                return "str"
+        if isinstance(e, ast.UnaryOp) and isinstance(e.op, ast.USub):
+            return "int"
+        if isinstance(e, ast.BinOp):
+            return self.typeof(e.left, env)
+        if isinstance(e, ast.Call) and isinstance(e.func, ast.Attribute) and e.func.attr == "find":
+            return "int"
+        if isinstance(e, ast.Subscript) and ast.unparse(e) in env["sub"]:
+            return env["sub"][ast.unparse(e)][1]
+        if isinstance(e, ast.Subscript) and isinstance(e.value, ast.Name) and env["ty"].get(e.value.id) == "pair":
+            return "str" if ast.unparse(e.slice) == "0" else "optstr"
+        return "str"
+
+    # ---- expressions
+    def tint(self, e, env) -> str:
+        if isinstance(e, ast.Constant) and type(e.value) is int:
+            return f"({e.value})%Z"
+        if isinstance(e, ast.UnaryOp) and isinstance(e.op, ast.USub) and isinstance(e.operand, ast.Constant) and type(e.operand.value) is int:
+            return f"(-{e.operand.value})%Z"
+        if isinstance(e, ast.Name) and env["ty"].get(e.id) == "int":
+            return self.v(e.id)
+        if isinstance(e, ast.BinOp) and isinstance(e.op, (ast.Add, ast.Sub)):
+            op = "+" if isinstance(e.op, ast.Add) else "-"
+            return f"({self.tint(e.left, env)} {op} {self.tint(e.right, env)})%Z"
+        if (isinstance(e, ast.Call) and isinstance(e.func, ast.Attribute) and e.func.attr == "find" and len(e.args) == 1
+                and not e.keywords):
+            return f"(py_find {self.tstr(e.func.value, env)} {self.char(e.args[0])})"
+        self.bad("integer expression", e)
+
+    def tstr(self, e, env) -> str:
+        t = ast.unparse(e)
+        if t in env["sub"]:
+            return env["sub"][t][0]
+        if isinstance(e, ast.Constant) and isinstance(e.value, str):
+            return self.lit(e.value)
+        if isinstance(e, ast.Name):
+            if env["ty"].get(e.id) == "str":
+                return self.v(e.id)
+            self.bad(f"name of type {env['ty'].get(e.id)} used as a str", e)
+        if isinstance(e, ast.JoinedStr):
+            parts = []
+            for p in e.values:
+                if isinstance(p, ast.Constant):
+                    parts.append(self.lit(p.value))
+                elif isinstance(p, ast.FormattedValue) and p.conversion == -1 and p.format_spec is None:
+                    parts.append(self.tstr(p.value, env))
+                else:
+                    self.bad("f-string part", e)
+            return "(" + " ++ ".join(parts) + ")"
+        if isinstance(e, ast.Subscript):
+            if isinstance(e.value, ast.Name) and env["ty"].get(e.value.id) == "pair" and ast.unparse(e.slice) == "0":
+                return f"(fst {self.v(e.value.id)})"
+            if (isinstance(e.value, ast.Call) and isinstance(e.value.func, ast.Attribute) and e.value.func.attr == "partition"
+                    and len(e.value.args) == 1 and ast.unparse(e.slice) == "0"):
+                return f"(py_partition0 {self.tstr(e.value.func.value, env)} {self.char(e.value.args[0])})"
+            base = self.tstr(e.value, env)
+            if isinstance(e.slice, ast.Slice):
+                if e.slice.step is not None:
+                    self.bad("slice step", e)
+                lo = f"(Some {self.tint(e.slice.lower, env)})" if e.slice.lower is not None else "None"
+                hi = f"(Some {self.tint(e.slice.upper, env)})" if e.slice.upper is not None else "None"
+                return f"(py_slice {base} {lo} {hi})"
+            if isinstance(e.slice, ast.Constant) and type(e.slice.value) is int and e.slice.value >= 0:
+                # s[i] used only in comparisons guarded by a membership test: the one-character slice
+                i = e.slice.value
+                return f"(py_slice {base} (Some ({i})%Z) (Some ({i + 1})%Z))"
+            self.bad("subscript", e)
+        if isinstance(e, ast.Call):
+            f = e.func
+            if isinstance(f, ast.Name) and f.id == "_strip_port" and len(e.args) == 1 and not e.keywords:
+                return f"(strip_port {self.tstr(e.args[0], env)})"
+            # X.encode("idna").decode("ascii"): a step that can fail; bound by the enclosing statement
+            if (isinstance(f, ast.Attribute) and f.attr == "decode" and [ast.unparse(a) for a in e.args] == ["'ascii'"]
+                    and isinstance(f.value, ast.Call) and isinstance(f.value.func, ast.Attribute) and f.value.func.attr == "encode"
+                    and [ast.unparse(a) for a in f.value.args] == ["'idna'"] and not e.keywords and not f.value.keywords):
+                inner = self.tstr(f.value.func.value, env)
+                name = f"idna{len(env['pending']) + env['nidna'][0]}"
+                env["nidna"][0] += 1
+                env["pending"].append((name, inner))
+                self.uses_idna = True
+                return name
+        self.bad("str expression", e)
+
+    def tbool(self, e, env) -> str:
+        if isinstance(e, ast.Constant) and isinstance(e.value, bool):
+            return "true" if e.value else "false"
+        if isinstance(e, ast.BoolOp):
+            op = " && " if isinstance(e.op, ast.And) else " || "
+            return "(" + op.join(self.tbool(x, env) for x in e.values) + ")"
+        if isinstance(e, ast.UnaryOp) and isinstance(e.op, ast.Not):
+            return f"negb {self.tbool(e.operand, env)}" if not isinstance(e.operand, ast.Name) else f"negb ({self.tbool(e.operand, env)})"
+        if isinstance(e, ast.Name):
+            ty = env["ty"].get(e.id)
+            if ty == "bool":
+                return self.v(e.id)
+            if ty == "str":
+                return f"(str_truthy {self.v(e.id)})"
+            self.bad(f"truth value of a {ty}", e)
+        if isinstance(e, ast.Call) and isinstance(e.func, ast.Attribute) and e.func.attr in ("startswith", "endswith") \
+                and len(e.args) == 1 and not e.keywords:
+            return f"(py_{e.func.attr} {self.tstr(e.func.value, env)} {self.tstr(e.args[0], env)})"
+        if isinstance(e, ast.Compare) and len(e.ops) == 1:
+            op, a, b = e.ops[0], e.left, e.comparators[0]
+            if isinstance(op, (ast.Eq, ast.NotEq)):
+                if "int" in (self.typeof(a, env), self.typeof(b, env)):
+                    t = f"({self.tint(a, env)} =? {self.tint(b, env)})%Z"
+                else:
+                    t = f"(list_eqb {self.tstr(a, env)} {self.tstr(b, env)})"
+                return t if isinstance(op, ast.Eq) else f"negb {t}"
+            if isinstance(op, (ast.In, ast.NotIn)):
+                if isinstance(b, ast.Set) and all(isinstance(x, ast.Constant) and isinstance(x.value, str) for x in b.elts):
+                    # a set literal is unordered: its elements are emitted sorted
+                    t = f"(str_in {self.tstr(a, env)} [{'; '.join(self.lit(v) for v in sorted(x.value for x in b.elts))}])"
+                elif isinstance(a, ast.Constant):
+                    t = f"(py_contains {self.tstr(b, env)} {self.char(a)})"
+                else:
+                    self.bad("membership test", e)
+                return t if isinstance(op, ast.In) else f"negb {t}"
+        self.bad("boolean expression", e)
+
+    # ---- statements
+    def newenv(self):
+        return {"ty": dict(self.params), "sub": {}, "pending": [], "nidna": [0], "handler": None, "cont": None}
+
+    @staticmethod
+    def cp(env):
+        return {"ty": dict(env["ty"]), "sub": dict(env["sub"]), "pending": [], "nidna": env["nidna"], "handler": env["handler"],
+                "cont": env["cont"], "joining": env.get("joining", False)}
+
+    def ret_ok(self, term: str) -> str:
+        return term if self.rettype == "str" else f"Ok {term}"
+
+    def bind_pending(self, env, body: str, on_fail: str | None) -> str:
+        """wrap `body` in the matches for the IDNA steps collected while translating one statement."""
+        pend, env["pending"] = env["pending"], []
+        for name, inner in reversed(pend):
+            if on_fail is None:
+                if not self.rettype.startswith("res"):
+                    self.bad("an IDNA step outside a function that can fail")
+                fail = "Err UnicodeError"
+            else:
+                fail = on_fail
+            body = f"match idna_encode idna_u {inner} with\n | None => {fail}\n | Some {name} => {body}\n end"
+        return body
+
+    def option_test(self, test, env):
+        """(expr-node, positive?) when the test is `X is None` / `X is not None` for an option-typed X."""
+        if (isinstance(test, ast.Compare) and len(test.ops) == 1 and isinstance(test.ops[0], (ast.Is, ast.IsNot))
+                and isinstance(test.comparators[0], ast.Constant) and test.comparators[0].value is None):
+            x = test.left
+            ty = self.typeof(x, env)
+            if ty.startswith("opt"):
+                return x, isinstance(test.ops[0], ast.IsNot), ty
+            self.bad("None test on something that is not optional in the model", test)
+        return None
+
+    def run(self, stmts, env) -> str:
+        if not stmts:
+            if env["cont"] is not None:
+                return env["cont"]
+            self.bad("control reaches the end of the function without a return")
+        s, rest = stmts[0], stmts[1:]
+        if isinstance(s, ast.Expr) and isinstance(s.value, ast.Constant) and isinstance(s.value.value, str):
+            return self.run(rest, env)
+        if isinstance(s, ast.Return):
+            if s.value is None:
+                self.bad("bare return", s)
+            if self.rettype == "res bool":
+                t = self.tbool(s.value, env)
+            else:
+                t = self.tstr(s.value, env)
+            return self.bind_pending(env, self.ret_ok(t), None)
+        if isinstance(s, ast.Raise):
+            name = ast.unparse(s.exc.func) if isinstance(s.exc, ast.Call) else ast.unparse(s.exc)
+            if name not in ("SecurityError", "UnicodeError", "KeyError") or not self.rettype.startswith("res"):
+                self.bad("raise of an exception class the model does not know", s)
+            return f"Err {name}"
+        if isinstance(s, ast.Assign) and len(s.targets) == 1 and isinstance(s.targets[0], ast.Name):
+            name = s.targets[0].id
+            # trusted_list = [trusted_list] under isinstance(..., str) is handled by the caller of the model
+            ty = self.typeof(s.value, env)
+            if ty == "bool" or (isinstance(s.value, ast.Constant) and isinstance(s.value.value, bool)):
+                term, ty = self.tbool(s.value, env), "bool"
+            elif ty == "int":
+                term = self.tint(s.value, env)
+            elif ty == "str":
+                term = self.tstr(s.value, env)
+            else:
+                self.bad(f"assignment of a {ty}", s)
+            env["ty"][name] = ty
+            env["sub"] = {k: v for k, v in env["sub"].items() if not k.startswith(name + "[")}
+            pend_env = {"pending": env["pending"]}
+            env["pending"] = []
+            k = self.run(rest, env)
+            env["pending"] = pend_env["pending"]
+            colon = {"str": "str", "int": "Z", "bool": "bool"}[ty]
+            return self.bind_pending(env, f"let {self.v(name)} : {colon} := {term} in\n {k}", env["handler"])
+        if isinstance(s, ast.If):
+            return self.run_if(s, rest, env)
+        if isinstance(s, ast.Try):
+            if not (len(s.handlers) == 1 and not s.orelse and not s.finalbody and len(s.body) == 1
+                    and isinstance(s.body[0], ast.Assign) and s.handlers[0].name is None):
+                self.bad("try statement shape", s)
+            h = s.handlers[0]
+            names = ([ast.unparse(x) for x in h.type.elts] if isinstance(h.type, ast.Tuple) else
+                     [ast.unparse(h.type)] if h.type is not None else ["BaseException"])
+            if any(n in CATCHES_UNICODE_ERROR for n in names):
+                henv = self.cp(env)
+                henv["cont"] = None
+                on_fail = self.run(list(h.body), henv)
+            else:
+                # str.encode("idna") raises a plain UnicodeError: a handler for a subclass does not catch it
+                on_fail = "Err UnicodeError"
+            env2 = self.cp(env)
+            env2["handler"] = on_fail
+            # the assignment is translated with the handler in force, the rest without it
+            a = s.body[0]
+            name = a.targets[0].id if isinstance(a.targets[0], ast.Name) else self.bad("try target", a)
+            if self.typeof(a.value, env2) != "str":
+                self.bad("try body is not a str assignment", a)
+            term = self.tstr(a.value, env2)
+            env3 = self.cp(env)
+            env3["ty"][name] = "str"
+            k = self.run(rest, env3)
+            env2["pending"] = env2["pending"]
+            return self.bind_pending(env2, f"let {self.v(name)} : str := {term} in\n {k}", on_fail)
+        if isinstance(s, ast.For):
+            return self.run_for(s, rest, env)
+        self.bad("statement", s)
+
+    @staticmethod
+    def only_assigns(stmts) -> set | None:
+        """names assigned by a block that contains nothing but (nested if of) plain assignments; None otherwise."""
+        names: set = set()
+        for st in stmts:
+            if isinstance(st, ast.Assign) and len(st.targets) == 1 and isinstance(st.targets[0], ast.Name):
+                for n in ast.walk(st.value):
+                    if isinstance(n, ast.Attribute) and n.attr in ("encode", "decode"):
+                        return None
+                    if isinstance(n, ast.Name) and n.id == "host_is_trusted":
+                        return None
+                names.add(st.targets[0].id)
+            elif isinstance(st, ast.If):
+                for n in ast.walk(st.test):
+                    if isinstance(n, ast.Name) and n.id in ("host_is_trusted", "isinstance"):
+                        return None
+                a, b = HostTr.only_assigns(st.body), HostTr.only_assigns(st.orelse)
+                if a is None or b is None:
+                    return None
+                names |= a | b
+            else:
+                return None
+        return names
+
+    def run_if(self, s, rest, env) -> str:
+        # an if that only assigns: its value is the tuple of the assigned variables, the rest is not duplicated
+        w = self.only_assigns([s])
+        if w and not env.get("joining"):
+            ws = sorted(w)
+            tys = {}
+            for n in ws:
+                t = env["ty"].get(n) or self.assigned_type(s, n, env)
+                tys[n] = t
+            tup = self.v(ws[0]) if len(ws) == 1 else "(" + ", ".join(self.v(n) for n in ws) + ")"
+            jenv = self.cp(env)
+            jenv["cont"] = tup
+            jenv["joining"] = True
+            for n in ws:
+                if n not in jenv["ty"]:
+                    jenv["undef"] = jenv.get("undef", set()) | {n}
+            val = self.run_if_core(s, [], jenv)
+            for n in ws:
+                env["ty"][n] = tys[n]
+            colon = {"str": "str", "int": "Z", "bool": "bool"}
+            pat = f"{self.v(ws[0])} : {colon[tys[ws[0]]]}" if len(ws) == 1 else "'" + tup
+            return f"let {pat} :=\n{_indent('(' + val + ')', 3)} in\n {self.run(rest, env)}"
+        return self.run_if_core(s, rest, env)
+
+    def assigned_type(self, s, name, env) -> str:
+        for n in ast.walk(s):
+            if isinstance(n, ast.Assign) and isinstance(n.targets[0], ast.Name) and n.targets[0].id == name:
+                if isinstance(n.value, ast.Constant) and isinstance(n.value.value, bool):
+                    return "bool"
+                return "str" if isinstance(n.value, (ast.JoinedStr, ast.Subscript)) or (
+                    isinstance(n.value, ast.Constant) and isinstance(n.value.value, str)) else self.typeof(n.value, env)
+        self.bad(f"type of {name}", s)
+
+    def run_if_core(self, s, rest, env) -> str:
+        test = s.test
+        # isinstance(trusted_list, str): the model receives a list; a str is wrapped by the harness
+        if ast.unparse(test) == "isinstance(trusted_list, str)" and [ast.unparse(x) for x in s.body] == ["trusted_list = [trusted_list]"] \
+                and not s.orelse:
+            return self.run(rest, env)
+        # `not X` / `X` on an optional str: None and "" are both falsy
+        if isinstance(test, ast.UnaryOp) and isinstance(test.op, ast.Not) and isinstance(test.operand, ast.Name) \
+                and env["ty"].get(test.operand.id) == "optstr":
+            x = test.operand.id
+            e_none = self.cp(env)
+            falsy = self.run(list(s.body) + rest, e_none) if False else self.run(list(s.body), self.cp(env))
+            e_some = self.cp(env)
+            e_some["ty"][x] = "str"
+            other = self.run(list(s.orelse) + rest, e_some)
+            return (f"match {self.v(x)} with\n | None => {falsy}\n | Some {self.v(x)} =>\n if negb (str_truthy {self.v(x)})\n"
+                    f" then {self.run(list(s.body), self.cp(e_some))}\n else {other}\n end")
+        ot = self.option_test(test, env)
+        if ot is not None:
+            x, positive, ty = ot
+            key = ast.unparse(x)
+            inner_ty = {"optstr": "str", "optlist": "list", "optpair": "pair"}[ty]
+            e_some, e_none = self.cp(env), self.cp(env)
+            if isinstance(x, ast.Name):
+                scrut, bound = self.v(x.id), self.v(x.id)
+                e_some["ty"][x.id] = inner_ty
+            elif isinstance(x, ast.Subscript) and isinstance(x.value, ast.Name) and env["ty"].get(x.value.id) == "pair" \
+                    and ast.unparse(x.slice) == "1":
+                scrut, bound = f"snd {self.v(x.value.id)}", self.v(x.value.id) + "_1"
+                e_some["sub"][key] = (bound, inner_ty)
+            else:
+                self.bad("None test", test)
+            yes, no = (list(s.body), list(s.orelse)) if positive else (list(s.orelse), list(s.body))
+            return (f"match {scrut} with\n | Some {bound} => {self.run(yes + rest, e_some)}\n"
+                    f" | None => {self.run(no + rest, e_none)}\n end")
+        # not host_is_trusted(a, b): a call that can itself fail
+        if (isinstance(test, ast.UnaryOp) and isinstance(test.op, ast.Not) and isinstance(test.operand, ast.Call)
+                and ast.unparse(test.operand.func) == "host_is_trusted" and len(test.operand.args) == 2 and not test.operand.keywords):
+            a, b = test.operand.args
+            if not (isinstance(b, ast.Name) and env["ty"].get(b.id) == "list"):
+                self.bad("second argument of host_is_trusted is not a list here", test)
+            self.uses_idna = True
+            return (f"match host_is_trusted idna_u (Some {self.tstr(a, env)}) {self.v(b.id)} with\n | Err e => Err e\n"
+                    f" | Ok trusted => if negb trusted\n then {self.run(list(s.body) + rest, self.cp(env))}\n"
+                    f" else {self.run(list(s.orelse) + rest, self.cp(env))}\n end")
+        c = self.tbool(test, env)
+        if env["pending"]:
+            self.bad("IDNA step inside a condition", test)
+        return (f"if {c}\n then {self.run(list(s.body) + rest, self.cp(env))}\n"
+                f" else {self.run(list(s.orelse) + rest, self.cp(env))}")
+
+    def run_for(self, s, rest, env) -> str:
+        if not (isinstance(s.target, ast.Name) and isinstance(s.iter, ast.Name) and env["ty"].get(s.iter.id) == "list" and not s.orelse):
+            self.bad("for loop shape", s)
+        if self.aux:
+            self.bad("more than one loop", s)
+        loop = f"{self.fname}_loop"
+        free = [n for n, t in env["ty"].items() if t in ("str", "bool", "int") and n != s.target.id]
+        colon = {"str": "str", "int": "Z", "bool": "bool"}
+        benv = self.cp(env)
+        benv["ty"][s.target.id] = "str"
+        benv["cont"] = f"{loop} idna_u {' '.join(self.v(n) for n in free)} rest"
+        body = self.run(list(s.body), benv)
+        aenv = self.cp(env)
+        aenv["cont"] = None
+        after = self.run(rest, aenv)
+        self.uses_idna = True
+        params = " ".join(f"({self.v(n)} : {colon[env['ty'][n]]})" for n in free)
+        self.aux.append(
+            f"Fixpoint {loop} (idna_u : str -> option str) {params} (l : list str) {{struct l}} : {self.rettype} :=\n"
+            f"  match l with\n  | [] => {after}\n  | {self.v(s.target.id)} :: rest =>\n{_indent(body, 4)}\n  end.\n")
+        return f"{loop} idna_u {' '.join(self.v(n) for n in free)} {self.v(s.iter.id)}"
+
+
+COQ_TY = {"str": "str", "optstr": "option str", "optlist": "option (list str)", "list": "list str",
+          "optpair": "option (str * option str)", "bool": "bool"}
+
+
+def translate_host_fn(fn: ast.FunctionDef, coqname: str, params: dict, rettype: str) -> str:
+    got = [a.arg for a in fn.args.args]
+    if got != list(params) or fn.args.vararg or fn.args.kwarg or fn.args.kwonlyargs:
+        raise px.Unsupported(f"{fn.name}: parameters {got} are not {list(params)}")
+    tr = HostTr(coqname, params, rettype)
+    term = tr.run(list(fn.body), tr.newenv())
+    sig = " ".join(f"({tr.v(n)} : {COQ_TY[t]})" for n, t in params.items())
+    idna = "(idna_u : str -> option str) " if tr.uses_idna else ""
+    return "".join(tr.aux) + f"Definition {coqname} {idna}{sig} : {rettype} :=\n{_indent(term)}.\n"
+
+
+def translate_get_host_caller(fn: ast.FunctionDef, coqname: str, table: dict, callee: str) -> str:
+    """a one-statement wrapper `return get_host(a, b, c, d)`: each argument must be in the table."""
+    body = [x for x in fn.body if not (isinstance(x, ast.Expr) and isinstance(x.value, ast.Constant))]
+    if not (len(body) == 1 and isinstance(body[0], ast.Return) and isinstance(body[0].value, ast.Call)
+            and ast.unparse(body[0].value.func) == callee and len(body[0].value.args) == 4 and not body[0].value.keywords):
+        raise px.Unsupported(f"{fn.name} is no longer `return {callee}(scheme, host header, server, trusted hosts)`")
+    args = []
+    for a in body[0].value.args:
+        t = ast.unparse(a)
+        if t not in table:
+            raise px.Unsupported(f"{fn.name}: argument {t} is not in the table")
+        args.append(table[t])
+    return (f"Definition {coqname} (idna_u : str -> option str) (v_scheme : str) (v_host_header : option str) "
+            f"(v_server : option (str * option str)) (v_trusted_hosts : option (list str)) : res str :=\n"
+            f"  get_host idna_u {' '.join(args)}.\n")
+
+
+
 def _method(cls: ast.ClassDef, name: str) -> ast.FunctionDef:
     found = [n for n in cls.body if isinstance(n, ast.FunctionDef) and n.name == name]
     if len(found) != 1:
@@ -477,7 +922,7 @@ def gen() -> None:
     utils = px.load("sansio/utils.py")
     cls = px.find_class(dbg, "DebuggedApplication")
     out = ["(* GENERATED by tools/c20.py from debug/__init__.py, sansio/utils.py on every run - do not edit *)",
-           "From Coq Require Import ZArith.", "From Wz Require Import lib.Bytes C20.Types.", "Open Scope N_scope.", ""]
+           "From Coq Require Import ZArith.", "From Wz Require Import lib.Bytes C20.Types C20.Str.", "Open Scope N_scope.", ""]
 
     # ---------------- T1 constants
     pin_time = px.find_assign(dbg, "PIN_TIME")
@@ -506,36 +951,36 @@ def gen() -> None:
     out.append(f"Definition value_modulus : N := {VALUE_MODULUS[vcode]}.")
     out.append("Definition default_trusted_hosts : list (list N) := [" + "; ".join(px.coq_string_codes(x) for x in trusted) + "].")
 
+    # hash_pin is an input of the model (sha1 is not modelled): pin its expression, the harness recomputes it with hashlib
+    hp = [x for x in px.find_def(dbg, "hash_pin").body if not (isinstance(x, ast.Expr) and isinstance(x.value, ast.Constant))]
+    if len(hp) != 1 or norm(hp[0]) != "return hashlib.sha1(f'{pin} added salt'.encode('utf-8', 'replace')).hexdigest()[:12]":
+        raise px.Unsupported("hash_pin is no longer sha1(f'{pin} added salt')[:12]")
+    out.append("(* hash_pin = first 12 hex digits of sha1(pin + ' added salt'): an input of the model (c_pin_hash) *)")
+    out.append("Definition hash_pin_hex_digits : N := 12.")
+
     # check_host_trust: one pinned return
     cht = [s for s in _method(cls, "check_host_trust").body if not (isinstance(s, ast.Expr) and isinstance(s.value, ast.Constant))]
     if len(cht) != 1 or norm(cht[0]) != "return host_is_trusted(environ.get('HTTP_HOST'), self.trusted_hosts)":
         raise px.Unsupported("check_host_trust is no longer host_is_trusted(environ.get('HTTP_HOST'), self.trusted_hosts)")
 
-    # host_is_trusted / get_host: literals and the exception classes the two handlers catch
-    hit = px.find_def(utils, "host_is_trusted")
-    handlers = [h for n in ast.walk(hit) if isinstance(n, ast.Try) for h in n.handlers]
-    if len(handlers) != 2:
-        raise px.Unsupported(f"host_is_trusted has {len(handlers)} exception handlers, the model has 2")
-    catches = []
-    for h in handlers:
-        names = [norm(h.type)] if h.type is not None and not isinstance(h.type, ast.Tuple) else (
-            [norm(e) for e in h.type.elts] if h.type is not None else ["BaseException"])
-        if len(h.body) != 1 or norm(h.body[0]) != "return False":
-            raise px.Unsupported("host_is_trusted exception handler no longer returns False")
-        catches.append(any(x in ("UnicodeError", "ValueError", "Exception", "BaseException") for x in names))
-    out.append("(* do the handlers around .encode(idna).decode(ascii) catch UnicodeError (not only a subclass)? *)")
-    out.append(f"Definition host_catches_unicode_error : bool := {'true' if catches[0] else 'false'}.")
-    out.append(f"Definition ref_catches_unicode_error : bool := {'true' if catches[1] else 'false'}.")
-    gh = px.find_def(utils, "get_host")
-    raises = [n for n in ast.walk(gh) if isinstance(n, ast.Raise)]
-    if len(raises) != 1 or not norm(raises[0].exc).startswith("SecurityError("):
-        raise px.Unsupported("get_host no longer raises exactly SecurityError")
-    # the port / scheme literals may live in get_host or in module-level tables it uses
-    strs = {n.value for n in ast.walk(utils) if isinstance(n, ast.Constant) and isinstance(n.value, str) and len(n.value) < 8}
-    for lit in ("http", "ws", "https", "wss", ":80", ":443", ":", "[", ""):
-        if lit not in strs:
-            raise px.Unsupported(f"get_host no longer mentions the literal {lit!r}")
+    # ---------------- T2: the host functions (control skeleton regenerated over the primitives of C20/Str.v)
     out.append("")
+    out.append(translate_host_fn(px.find_def(utils, "_strip_port"), "strip_port", {"host": "str"}, "str"))
+    out.append(translate_host_fn(px.find_def(utils, "host_is_trusted"), "host_is_trusted",
+                                 {"hostname": "optstr", "trusted_list": "list"}, "res bool"))
+    out.append(translate_host_fn(px.find_def(utils, "get_host"), "get_host",
+                                 {"scheme": "str", "host_header": "optstr", "server": "optpair", "trusted_hosts": "optlist"}, "res str"))
+    # the request-level callers: sansio.request.Request.host and wsgi.get_host
+    req = px.find_class(px.load("sansio/request.py"), "Request")
+    dflt = px.const(px.find_assign(req, "trusted_hosts"))
+    if dflt is not None:
+        raise px.Unsupported(f"Request.trusted_hosts default is {dflt!r}, not None")
+    out.append(translate_get_host_caller(_method(req, "host"), "request_host", {
+        "self.scheme": "v_scheme", "self.headers.get('host')": "v_host_header", "self.server": "v_server",
+        "self.trusted_hosts": "v_trusted_hosts", "self.trusted_hosts or None": "(or_none v_trusted_hosts)"}, "get_host"))
+    out.append(translate_get_host_caller(px.find_def(px.load("wsgi.py"), "get_host"), "wsgi_get_host", {
+        "environ['wsgi.url_scheme']": "v_scheme", "environ.get('HTTP_HOST')": "v_host_header", "_get_server(environ)": "v_server",
+        "trusted_hosts": "v_trusted_hosts", "trusted_hosts or None": "(or_none v_trusted_hosts)"}, "_sansio_utils.get_host"))
 
     # ---------------- T2 decision functions
     def body(name):
@@ -767,6 +1212,14 @@ def expand_history(text: str) -> str:
     return out
 
 
+CONSOLE_EVALS: list = []   # code handed to the (patched) eval of the real console frame
+
+
+def _console_eval_spy(self, code):
+    CONSOLE_EVALS.append(code)
+    return "SPY-OUTPUT"
+
+
 class FakeTime:
     def __init__(self, now):
         self.now = now
@@ -821,6 +1274,7 @@ class Rig:
         self.spy = Spy()
         self.base = create_environ("/", "http://localhost/")
         self.logs = []
+        self.frames_before = None
 
     def reset(self, count=0):
         self.app._failed_pin_auth.value = count
@@ -849,6 +1303,8 @@ class Rig:
         self.spy.calls.clear()
         self.logs.clear()
         self.wd.time.sleeps.clear()
+        self.frames_before = list(self.app.frames)
+        CONSOLE_EVALS.clear()
         n_inner = self.inner_calls
         sh = []
         det = {}
@@ -865,7 +1321,7 @@ class Rig:
             ctype = dict(headers).get("Content-Type", "")
             setck = [v for k, v in headers if k == "Set-Cookie" and v.startswith("__wzd")]
             det["set_cookie"] = setck
-            if self.spy.calls:
+            if self.spy.calls or CONSOLE_EVALS:
                 obs = "eval" if body == b"SPY-OUTPUT" and status.startswith("200") else "eval?"
             elif self.inner_calls > n_inner:
                 obs = "app"
@@ -889,13 +1345,14 @@ class Rig:
                 obs = f"other:{status}:{ctype}"
         det["pin_logged"] = any(PIN in str(a) for a in self.logs)
         det["frame0"] = 0 in self.app.frames
-        det["evals"] = list(self.spy.calls)
+        det["evals"] = list(self.spy.calls) + list(CONSOLE_EVALS)
         sl = self.wd.time.sleeps
         ms = int(round(sl[0] * 1000)) if sl else None
         return obs, self.app._failed_pin_auth.value, ms, det
 
     def model_line(self, args, path, host, cookie, count, evalex) -> str:
-        cfg = (f"{int(evalex)} {cps('/console')} {cps(self.app.secret)} {FID} "
+        frames = ",".join(str(k) for k in (self.frames_before if self.frames_before is not None else [FID])) or "_"
+        cfg = (f"{int(evalex)} {cps('/console')} {cps(self.app.secret)} {frames} "
                f"{cps(PIN) if self.pin_on else '~'} {cps(self.hash)} 1 {olist(self.app.trusted_hosts)}")
         a = "|".join(f"{cps(k)}={cps(v)}" for k, v in args) if args else "_"
         return (f"run {cfg} {a} {cps(path)} {ostr(host)} {ostr(cookie)} {NOW} {count} "
@@ -993,6 +1450,10 @@ def run(chk: Check, consts: dict | None) -> None:
     from werkzeug.exceptions import BadRequest
     if not (issubclass(SecurityError, BadRequest) and SecurityError.code == 400):
         chk.fail("securityerror-not-400", "SecurityError is no longer a 400-class error", {"kind": "class", "mro": [c.__name__ for c in SecurityError.__mro__]})
+    import hashlib
+    for pin_ in [PIN, "", "123-456-789", "p\u00efn", "x" * 100]:
+        if wd.hash_pin(pin_) != hashlib.sha1(f"{pin_} added salt".encode("utf-8", "replace")).hexdigest()[:12]:
+            chk.broken("contract", "hash_pin", f"hash_pin({pin_!r}) is not the first 12 hex digits of sha1(pin + ' added salt')")
     T = wd.PIN_TIME
 
     # ------------------------------------------------------------ A. host pairs
@@ -1120,7 +1581,10 @@ def run(chk: Check, consts: dict | None) -> None:
                 keys = []
                 for c in cand:
                     keys += idna_keys(c, list(tl) if tl else [])
-                add(f"gh {cps(scheme)} {ostr(hh)} {ostr(sn)} {ostr(sp)} {'~~' if tl is None else olist(list(tl))} {idna_table(keys)}", obs[0], "gh")
+                rest_ = f"{cps(scheme)} {ostr(hh)} {ostr(sn)} {ostr(sp)} {'~~' if tl is None else olist(list(tl))} {idna_table(keys)}"
+                add("gh " + rest_, obs[0], "gh")
+                add("wgh " + rest_, obs[1], "wsgi.get_host")
+                add("rh " + rest_, obs[3], "Request.host")
                 n_gh += 1
                 chk.case(("gh", scheme, hh, server, tuple(tl) if tl is not None else None), nontrivial=tl is not None)
     chk.count("get_host cases", n_gh)
@@ -1136,10 +1600,11 @@ def run(chk: Check, consts: dict | None) -> None:
         add(f"int {cps(s)}", impl, "int")
 
     # ------------------------------------------------------------ B. the debugger
-    real_time, real_log = wd.time, wd._log
+    real_time, real_log, real_ceval = wd.time, wd._log, wd._ConsoleFrame.eval
     fake = FakeTime(NOW)
     try:
         wd.time = fake
+        wd._ConsoleFrame.eval = _console_eval_spy
         rigs = {}
 
         def logrec(*a, **k):
@@ -1236,18 +1701,44 @@ def run(chk: Check, consts: dict | None) -> None:
             for host in PRODUCT_HOSTS:
                 for ck in ["valid", "absent"]:
                     one(dflt, "default", label, list(base_args) + [("frm", str(FID)), ("s", dflt.app.secret)], path, host, ck)
-        # console frame: evaluation in frame 0 only after the console page was served to a trusted host
-        rig = rigs[(True, False)]
-        for host in ["localhost", "evil.com"]:
-            rig.reset(0)
-            before = with_timeout(rig.request, 10, [("__debugger__", "yes"), ("cmd", "1+1"), ("frm", "0"), ("s", rig.app.secret)], "/", host, None)
-            page = with_timeout(rig.request, 10, [], "/console", host, None)
-            if (0 in rig.app.frames) != spec_trusted(host, rig.app.trusted_hosts):
-                chk.fail("answered-untrusted:console-frame", "console frame creation does not follow host trust",
-                         {"kind": "console-frame", "host": host})
-            if before[0] == "eval":
-                chk.fail("eval-without:frame", "evaluation in the console frame before the console page existed", {"kind": "console-frame", "host": host})
-            rig.app.frames.pop(0, None)
+        # console frame (frames[0]) across requests: every sequence up to length 4 over
+        # {console page trusted / untrusted, eval in frame 0 trusted / untrusted, eval in the spy frame};
+        # the frames table is carried by the live app and handed to the model step by step
+        import itertools as _it
+        n_seq = 0
+        for key in [(True, False), (False, False), (True, True)]:
+            rig = rigs[key]
+            sec_ = rig.app.secret
+            SEQ = {
+                "P": ([], "/console", "localhost"),
+                "U": ([], "/console", "evil.com"),
+                "E": ([("__debugger__", "yes"), ("cmd", "1+1"), ("frm", "0"), ("s", sec_)], "/", "sub.localhost:5000"),
+                "X": ([("__debugger__", "yes"), ("cmd", "1+1"), ("frm", "0"), ("s", sec_)], "/", "evil.com"),
+                "K": ([("__debugger__", "yes"), ("cmd", "2+2"), ("frm", str(FID)), ("s", sec_)], "/", "localhost"),
+            }
+            ck = COOKIES["valid"](rig.hash, T)
+            for L in range(1, 5 if key == (True, False) or not quick else 4):
+                for seq in _it.product("PUEXK", repeat=L):
+                    rig.reset(0)
+                    served = False
+                    for i_, sym in enumerate(seq):
+                        args, path, host = SEQ[sym]
+                        obs, c1, ms, det = with_timeout(rig.request, 10, args, path, host, ck)
+                        inp = {"kind": "console-sequence", "evalex": key[0], "pin_on": key[1], "sequence": "".join(seq[:i_ + 1]), "observed": obs}
+                        if sym in "EX" and det["evals"] and not (served and key[0] and sym == "E"):
+                            chk.fail("eval-without:console-page", "evaluation in the console frame (frame 0) although the console page was never "
+                                     "served to a trusted host with evalex on", inp)
+                        if sym == "U" and (obs.startswith("console") or (det["frame0"] and not served)):
+                            chk.fail("answered-untrusted:console-frame", "console page / frame for an untrusted host", inp)
+                        if sym == "P" and obs.startswith("console"):
+                            served = True
+                        if det["frame0"] != (served and key[0]):
+                            chk.fail("console-frame-state", f"frames[0] present={det['frame0']} after {''.join(seq[:i_ + 1])}", inp)
+                        add(rig.model_line(args, path, host, ck, 0, key[0]),
+                            f"{obs} c={c1} s={'-' if ms is None else ms} f0={int(det['frame0'] and obs.startswith('console'))}", "console-seq")
+                    n_seq += 1
+                    chk.case(("console-seq", key, seq), nontrivial=True)
+        chk.count("console-frame sequences", n_seq)
 
         # -------------------------------------------------------- C. PIN attempt histories
         hrig = rigs[(True, True)]
@@ -1368,6 +1859,7 @@ def run(chk: Check, consts: dict | None) -> None:
         chk.count("history:steps", n_steps[0])
     finally:
         wd.time, wd._log = real_time, real_log
+        wd._ConsoleFrame.eval = real_ceval
 
     # ------------------------------------------------------------ model side
     exe = chk.build_modelrun("C20")
@@ -1448,7 +1940,10 @@ def main(chk: Check) -> None:
         "contract of str.encode('idna') on non-ASCII text (Section variable idna_u): ASCII output whose labels are non-empty except "
         "possibly the last, or UnicodeError; validated against CPython on every generated host; the ASCII fast path of the codec is "
         "modelled executably and compared differentially",
-        "hand-written model of sansio.utils._strip_port / host_is_trusted / get_host and of int() on ASCII text, compared differentially",
+        "str primitives of coq/C20/Str.v (startswith, endswith, find, slicing with Python's clamping, partition, membership) in which the "
+        "regenerated _strip_port / host_is_trusted / get_host / Request.host / wsgi.get_host are written, and the model of int() on ASCII "
+        "text: hand-written, compared differentially; the for loop of host_is_trusted becomes a Fixpoint, try/except around the IDNA step "
+        "a match on the codec result (a handler for a subclass of UnicodeError does not catch)",
         "hash_pin (sha1) and parse_cookie are inputs of the model (expected hash and cookie value are passed in); time.time / time.sleep "
         "and _log are replaced by recorders in the harness",
         "atoms of the abstract request are computed by the model from the concrete query arguments, path, Host and cookie (Model.abstract), "
